@@ -80,11 +80,18 @@ Definition push_bool (S : senv) : senv := mksenv (ioffs S) (boffs S ++ [top S + 
    pushed (frame_size == word_size); a literal / local is fetched (get_fast) and pushed *)
 Definition decl_int (S : senv) (o : iopd) : list aline :=
   let E := env_of S in
+  match o with
+  | OByte v =>         (* push_expr of a ByteToInt: clear a word, then push the byte into its low byte *)
+      [AInstr (ASwso (SReg RFp) (SLit (- (top S + ws S))) (SLit 0));
+       AInstr (ALbso R1 (SReg RFp) (SLit (- byte_off E v)));
+       AInstr (ASbso (SReg RFp) (SLit (- (top S + ws S))) (SReg R1))]
+  | _ =>
   let (c0, bub) := eval_opd E (top S) R1 o true in
   match bub with
   | BuPushed _ => c0
   | _ => let (c1, v) := pop_value R1 bub in
          c0 ++ c1 ++ [AInstr (ASwso (SReg RFp) (SLit (- (top S + ws S))) v)]
+  end
   end.
 (* Assignment to an int local: value = get_expr_value(r1, e); Indirect.set *)
 Definition assign_int (S : senv) (i : nat) (o : iopd) : list aline :=
@@ -102,7 +109,7 @@ Definition lower_write (S : senv) (x : wexpr) : list aline :=
       let (c0, bub) := eval_opd (env_of S) (top S) R1 o false in
       c0 ++ match bub with
             | BuImm z => [AInstr (AYield (SLit (z mod 256)))]
-            | BuLocal off | BuPushed off =>
+            | BuLocal _ off | BuPushed off =>
                 [AInstr (ALbso R1 (SReg RFp) (SLit (- off))); AInstr (AYield (SReg R1))]
             | BuReg r => [AInstr (ALbs R1 (SRegAddr r)); AInstr (AYield (SReg R1))]
             end
